@@ -161,7 +161,7 @@ def run_graph(case, acc):
     attach.ACTIVE.clear()
     g = {k: tuple(v) for k, v in case["g"].items()}
     acc.counters["class.graph_" + case["cls"]] += 1
-    scfg = drivers.make_scfg(g, "ast")
+    scfg = drivers.make_scfg(g, "ast", drivers.how_for(g))
     done = drivers.run_stages(scfg, "JLB", ctx)
     if len(done) != 3:
         acc.counters["pipeline_error_before_codegen"] += 1
